@@ -163,7 +163,12 @@ def step(st, line):
     if t is ILL:
         return False
     if t is SKIP:
-        st.cmts.append(body)
+        if body.startswith(CMT_MARKER) and st.merge:
+            if not st.cmts:
+                return False
+            st.cmts[-1] = st.cmts[-1] + body[3:]
+        else:
+            st.cmts.append(body)
         st.merge = True
         return True
     return finish(st, k, acc, q, t)
@@ -234,6 +239,17 @@ def safe(line, ltype):
 def prop_on(line, out_lines):
     """0 = holds, 1 = fails, 2 = the input line alone is ill-formed"""
     r = join([line])
+    if r is None:
+        return 2
+    r2 = join(out_lines)
+    if r2 is None:
+        return 1
+    return 0 if jequiv(r2, r) else 1
+
+
+def prop_on_lines(lines, out_lines):
+    """multi-line input: 0 = join(out) ~ join(in), 1 = differs, 2 = the input itself is ill-formed"""
+    r = join(lines)
     if r is None:
         return 2
     r2 = join(out_lines)
